@@ -115,6 +115,57 @@ def replay_golden(case, proj, what):
             compare(case, real_compile(doc, max_id(doc) + 1), pk, proj, what)
 
 
+MODE_SCRIPT = r"""
+import json, sys
+sys.path.insert(0, sys.argv[1]); sys.path.insert(0, sys.argv[2])
+from vlib import gh
+out = []
+for text in json.load(sys.stdin):
+    r = gh.parse_and_compile(text, uri="u.feature")
+    out.append(r[2] if r[0] == "ok" else None)
+print(json.dumps(out))
+"""
+
+MODE_TEXTS = ["Feature: f\n Scenario Outline: o <n>\n  Given <n>\n  Examples:\n   | n | n |\n   | 1 | 2 |\n", "@a @a\nFeature: f\n @a\n Scenario: s\n  Given x\n  Given x\n",
+              "Feature: f\n Scenario: same\n Scenario: same\n", "Feature: f\n Background:\n Scenario: s\n", "Feature: f\n Scenario Outline: o\n  Given <missing>\n  Examples:\n   | a |\n   | 1 |\n",
+              "Feature: f\n Scenario Outline: o\n  Given x\n  Examples:\n   | unused |\n   | 1 |\n", "Feature: f\n Rule: empty\n Rule: empty\n", "Feature:\n Scenario:\n  Given \n",
+              "Feature: f\n Background:\n  Given b\n Scenario: s\n Scenario Outline: o\n  And <a>\n  Examples:\n  Examples: e\n   | a |\n", "Feature: f\n @t @t\n Scenario Outline: o\n  * <a><a>\n  @t\n  Examples:\n   | a |\n   | <a> |\n"]
+
+
+def check_modes(case, stats, proj, what):
+    """the pickles do not depend on how the interpreter was started: assertions / docstrings stripped, warnings turned into errors, C locale"""
+    import subprocess
+    import sys
+    from vlib import noisy
+    from vlib.common import VERIF
+    texts = [t for n, t in noisy.corpus_texts() if "/good/" in n or "good" in n][:60] + MODE_TEXTS
+    texts = [t for t in texts if not gh.names_existing_path(t)]
+    here = []
+    for t in texts:
+        r = gh.parse_and_compile(t, uri="u.feature")
+        here.append(json.loads(json.dumps(r[2])) if r[0] == "ok" else None)
+    stats.case(("modes", case["name"]), True, sample={"name": case["name"], "documents": len(texts)})
+    r = subprocess.run([sys.executable] + case["flags"] + ["-X", "utf8", "-c", MODE_SCRIPT, os.path.join(REPO, "python"), VERIF], input=json.dumps(texts), capture_output=True, text=True, timeout=600,
+                       env=dict(os.environ, PYTHONDONTWRITEBYTECODE="1", **case.get("env", {})))
+    if r.returncode != 0:
+        raise Violation(case, "%s: a fresh interpreter started with %r %r does not get through parse + compile of %d ordinary documents: %s" % (what, case["flags"], case.get("env"), len(texts), r.stderr[-600:]))
+    there = json.loads(r.stdout)
+    if len(there) != len(here):
+        raise Violation(case, "%s: %d of %d documents reported" % (what, len(there), len(here)))
+    for t, a, b in zip(texts, here, there):
+        if (a is None) != (b is None) or (a is not None and proj(a) != proj(b)):
+            raise Violation(dict(case, text=t), "%s: pickles differ in an interpreter started with %r %r\n%s" % (what, case["flags"], case.get("env"), t))
+
+
+def unit_modes(proj, what):
+    from vlib.common import sweep
+    stats = Stats()
+    sweep(stats, [{"sub": "modes", "name": "-OO", "flags": ["-OO"]},
+                  {"sub": "modes", "name": "warnings-as-errors", "flags": ["-W", "error::UserWarning", "-W", "error::DeprecationWarning:gherkin", "-W", "error::RuntimeWarning", "-W", "error::FutureWarning"]},
+                  {"sub": "modes", "name": "c-locale", "flags": [], "env": {"LC_ALL": "C", "LANG": "C"}}], lambda c, s: check_modes(c, s, proj, what))
+    return stats
+
+
 # ------------------------------------------------------------------ one Compiler for several documents whose ids coincide
 ROT = {"Context": "Action", "Action": "Outcome", "Outcome": "Context", "Conjunction": "Conjunction", "Unknown": "Unknown"}
 
